@@ -36,10 +36,32 @@ import random as _random_module  # noqa: E402
 RND = _random_module.random   # the program's own use of the global RNG (C-level builtin method)
 
 
+FLAKY_RAISES = []   # journal lengths at which a FlakyCallable raised from inside the tracer's function lookup
+
+
+class FlakyCallable:
+    """A lazily bound proxy as a program might keep in a local: callable; asking it for __code__ / __wrapped__ (what a duck-typed
+    function lookup does with every callable it meets) raises RuntimeError the first n times - a transient fault inside the lookup."""
+
+    def __init__(self, n):
+        self.__dict__["n"] = n
+
+    def __call__(self, *a, **k):
+        return None
+
+    def __getattr__(self, name):
+        if name in ("__code__", "__wrapped__") and self.__dict__["n"] > 0:
+            self.__dict__["n"] -= 1
+            FLAKY_RAISES.append(len(J))
+            raise RuntimeError("proxy is not bound yet")
+        raise AttributeError(name)
+
+
 def reset():
     """Fresh journal / stacks for a new run.  Objects are mutated in place so that the
     aliases imported by fixture modules stay valid."""
     del J[:]
+    del FLAKY_RAISES[:]
     del Q[:]
     H.clear()
     RUN.clear()
